@@ -124,6 +124,9 @@ pub enum Fault {
     Reserialize { i: usize, mode: Reser },
     ForeignDisclosure { from: usize, j: usize, at: usize },
     GarbageDisclosure { text: String, at: usize },
+    /// text appended to a part of the issuer-signed JWT or of the KB-JWT (a further '.'-separated
+    /// segment behind a still-valid signature, padding, a blank …)
+    AppendToPart { part: Part, text: String },
     /// `n` well-formed but unreferenced disclosures inserted at `at` (long lists: position
     /// limits, quadratic scans, fixed-size tables)
     FloodDisclosures { n: usize, at: usize },
@@ -182,6 +185,7 @@ impl Fault {
             Fault::Reserialize { .. } => "reserialize_disclosure",
             Fault::ForeignDisclosure { .. } => "foreign_disclosure",
             Fault::GarbageDisclosure { .. } => "garbage_disclosure",
+            Fault::AppendToPart { .. } => "text_appended_to_part",
             Fault::FloodDisclosures { .. } => "flood_of_unreferenced_disclosures",
             Fault::MergeDisclosures { .. } => "two_disclosures_in_one_member",
             Fault::DisclosuresIntoKbSlot { .. } => "disclosures_in_kb_slot",
@@ -200,7 +204,7 @@ impl Fault {
     }
     pub fn target(&self) -> String {
         match self {
-            Fault::CorruptChar { part, .. } | Fault::Truncate { part, .. } | Fault::SpliceJwtPart { part, .. } => match part {
+            Fault::CorruptChar { part, .. } | Fault::Truncate { part, .. } | Fault::SpliceJwtPart { part, .. } | Fault::AppendToPart { part, .. } => match part {
                 Part::Disc(_) => "Disc".into(),
                 p => format!("{:?}", p),
             },
@@ -675,6 +679,11 @@ pub fn apply(f: &Fault, m: &mut Message, tokens: &[Message], w: &mut World, now:
                     let at = *at % (m.disclosures.len() + 1);
                     m.disclosures.insert(at, d);
                 }
+            }
+        }
+        Fault::AppendToPart { part, text } => {
+            if let Some(cur) = part_get(m, *part) {
+                part_set(m, *part, format!("{}{}", cur, text));
             }
         }
         Fault::FloodDisclosures { n, at } => {
